@@ -7,6 +7,12 @@ import FormulaicVerif.Proofs.C15Kinds
 import FormulaicVerif.Proofs.C15Quote
 import FormulaicVerif.Proofs.C15Call
 import FormulaicVerif.Proofs.C15Exact
+import FormulaicVerif.Proofs.C15Formula
+import FormulaicVerif.Proofs.C15Alias
+import FormulaicVerif.Proofs.C15Restore
+import FormulaicVerif.Proofs.C15Loop
+import FormulaicVerif.Proofs.C15Unique
+import FormulaicVerif.Proofs.C15Token
 /-! # C15 — Lexing is whitespace-insensitive, quote-faithful and normalises Python code
 
 Property theorems only (helpers: `Proofs/C15.lean`), about `Model.tokenize`/`Model.lexStep`, the
@@ -40,7 +46,25 @@ holds of the token STREAM, i.e. even if the rest of the input is rejected).
 `token_text_exact` (`Proofs/C15Exact.lean`, an invariant of all branches of the loop) strengthens
 `span_delimits_text` from "subsequence" to equality: the span and the kind determine the text.
 
-Nothing of C15 is left unproved.
+`ws_insensitive_formula` (`Proofs/C15Formula.lean`) lifts `ws_insensitive` from the token list to the
+PARSED FORMULA: no stage downstream of the tokenizer (token sanitisation, the `0`/`~`/`|`/intercept
+rewrites, sign merging, the shunting yard, the evaluation of the tree, `Formula`'s simplification and
+ordering) looks at a source span, so whitespace at a safe gap changes neither the terms nor the
+accept/reject outcome nor the class of the error.
+
+The alias pass of `utils/code.py` and the restoration of `sanitize_python_code` (`Model/PyAlias.lean`,
+run against the real functions on every check) have theorems of their own: the scan is a partition of
+the fragment (`alias_scan_partition`), every alias is an ASCII identifier that is not a keyword, not a
+word of the code and not in use for anything else (`alias_is_identifier`), the suffix loop stops
+(`alias_loop_terminates`), no name has two aliases (`alias_unique_per_name`), the sanitised fragment is the fragment with each back-quoted name replaced
+by an alias the table maps back to that name (`alias_table_faithful`), and the restoration undoes the
+alias pass for EVERY fragment (`restore_roundtrip`, `normal_form_of_formatted`). What stays outside
+Lean is CPython's `ast.parse`/`ast.unparse` (that two formattings of one expression have the same
+unparse, and that unparse leaves identifiers whole).
+
+`Token`'s other methods (`Model/TokenMethods.lean`): `kind_to_factor`, `leaf_factor_agrees`,
+`source_context_marks_span`, `split_keeps_text_and_span`.
+
 The backslash exclusion in `backtick_verbatim` is not decoration: known finding C15-F1. -/
 namespace FormulaicVerif.Props.C15
 open FormulaicVerif FormulaicVerif.Model
@@ -324,5 +348,253 @@ example : tokenize ("y ~  -`a b`+f(x )".toList.map exampleClass)
            { text := "+".toList, kind := some .operator, start := some 11, stop := some 11 },
            { text := "f(x )".toList, kind := some .python, start := some 12, stop := some 16 }] := by
   decide +kernel
+
+/-! ## Whitespace at the level of the parsed formula -/
+
+/-- C15.1b  **Whitespace insensitivity of the parsed formula.** Same hypotheses as `ws_insensitive`
+(`u` is any prefix after which no quote is open and the pending token is empty or an operator: a
+point around an operator or a grouping bracket, or between tokens). For every parser configuration,
+every continuation `v` and every CPython environment (`norm`, variables): `Formula(u ++ w ++ v)` and
+`Formula(u ++ v)` are the SAME value (same structure, same terms, same factors, same order), and so
+are `get_terms`; if one is rejected so is the other, with the same class of exception (`normE` only
+forgets the explanatory text of a syntax error). -/
+theorem ws_insensitive_formula (cfg : ParseCfg) (env : PyEnv) (u v : List CharInfo) (w : CharInfo) (s : LexState)
+    (hu : lexLoop u 0 {} = (s, none)) (hq : s.qc = []) (ht : s.take = 0)
+    (hsp : w.space = true) (hc : w.c ∉ ['%', '{', '`', '(', '[', ')', ']'])
+    (hp : s.tok.nonempty = false ∨ s.tok.kind = some .operator) :
+    Proofs.C15Formula.normE (formulaOfString cfg env (u ++ w :: v)) = Proofs.C15Formula.normE (formulaOfString cfg env (u ++ v)) ∧
+    Proofs.C15Formula.normE (parseTerms cfg env (u ++ w :: v)) = Proofs.C15Formula.normE (parseTerms cfg env (u ++ v)) :=
+  Proofs.C15Formula.ws_insensitive_formula cfg env u v w s hu hq ht hsp hc hp
+
+/-- the hypotheses hold after `y ~` (the pending token is the operator `~`): a space may be inserted there -/
+example : (lexLoop ("y ~".toList.map exampleClass) 0 {}).2 = none ∧
+    (lexLoop ("y ~".toList.map exampleClass) 0 {}).1.qc = [] ∧ (lexLoop ("y ~".toList.map exampleClass) 0 {}).1.take = 0 ∧
+    (lexLoop ("y ~".toList.map exampleClass) 0 {}).1.tok.kind = some .operator := by decide +kernel
+
+/-- C15.1c  The general principle behind it: two strings whose token STREAMS agree up to source spans
+(and that are both lexed completely or both not) have the same parsed formula. -/
+theorem formula_ignores_spans (cfg : ParseCfg) (env : PyEnv) (cs1 cs2 : List CharInfo)
+    (h1 : (tokenizeStream cs1).1.map Proofs.C15Ws.erase = (tokenizeStream cs2).1.map Proofs.C15Ws.erase)
+    (h2 : (tokenizeStream cs1).2.isSome = (tokenizeStream cs2).2.isSome) :
+    Proofs.C15Formula.normE (formulaOfString cfg env cs1) = Proofs.C15Formula.normE (formulaOfString cfg env cs2) :=
+  Proofs.C15Formula.formulaOfString_congr cfg env cs1 cs2 h1 h2
+
+/-- C15.1d  **Any re-spacing.** `Respaced` is the equivalence generated by inserting one unquoted
+whitespace character at a safe gap (after a prefix that leaves no quote open and the pending token
+empty or an operator): adding AND removing whitespace there, any number of times, in any order. Two
+strings related by it have the same `Formula` and the same `get_terms` (or are both rejected, with the
+same class of exception), for every parser configuration and every CPython environment. -/
+theorem respacing_keeps_formula (cfg : ParseCfg) (env : PyEnv) (a b : List CharInfo) (h : Proofs.C15Formula.Respaced a b) :
+    Proofs.C15Formula.normE (formulaOfString cfg env a) = Proofs.C15Formula.normE (formulaOfString cfg env b) ∧
+    Proofs.C15Formula.normE (parseTerms cfg env a) = Proofs.C15Formula.normE (parseTerms cfg env b) :=
+  Proofs.C15Formula.respaced_formula cfg env h
+
+/-- `y ~a` and `y ~ a` are related: after `y ~` the pending token is the operator `~` — a safe gap -/
+example : Proofs.C15Formula.Respaced ("y ~a".toList.map exampleClass) ("y ~ a".toList.map exampleClass) :=
+  Proofs.C15Formula.Respaced.insert ("y ~".toList.map exampleClass) ("a".toList.map exampleClass) (exampleClass ' ')
+    ⟨_, rfl, by decide +kernel, by decide +kernel, by decide +kernel⟩ ⟨by decide +kernel, by decide +kernel⟩
+
+/-! ## Python fragments: the alias pass and the restoration (`utils/code.py`, `sanitize_python_code`) -/
+
+open FormulaicVerif.Model.PyAlias in
+/-- C15.8  **The scan is a partition.** For EVERY fragment the parts of
+`UNQUOTED_BACKTICK_MATCHER.split(expr)` put side by side are the fragment, and they alternate
+text, match, text, …, text where a match is a whole back-quoted name or a literal that begins and ends
+with a character that is not an ASCII word character. -/
+theorem alias_scan_partition (expr : List Char) :
+    (split expr).flatMap Part.source = expr ∧ Proofs.C15Alias.Alt (split expr) :=
+  ⟨Proofs.C15Alias.split_source expr, Proofs.C15Alias.split_alt expr⟩
+
+open FormulaicVerif.Model.PyAlias in
+/-- a quote inside a back-quoted name does not start a string (the repaired defect C15-F3), a string
+ending in an escaped backslash ends there (repaired defect e171077), an unterminated back-quote is text -/
+example : split "f(`it's`, 'a\\\\', `b c`, \"d\") + `e".toList =
+    [.text "f(".toList, .name "it's".toList, .text ", ".toList, .lit "'a\\\\'".toList, .text ", ".toList,
+     .name "b c".toList, .text ", ".toList, .lit "\"d\"".toList, .text ") + `e".toList] := by decide +kernel
+
+open FormulaicVerif.Model.PyAlias in
+/-- a backslash takes the next character with it, inside strings and inside back-quoted names -/
+example : split "g('a\\'b', `c\\`d`)".toList =
+    [.text "g(".toList, .lit "'a\\'b'".toList, .text ", ".toList, .name "c\\`d".toList, .text ")".toList] := by decide +kernel
+
+open FormulaicVerif.Model.PyAlias in
+/-- an escaped quote outside a string is a match of its own; an unterminated string is text, and a
+back-quoted name after it is still found -/
+example : split "\\\"`a`\\\" + 'b + `c d`".toList =
+    [.text [], .lit "\\\"".toList, .text [], .name "a".toList, .text [], .lit "\\\"".toList,
+     .text " + 'b + ".toList, .name "c d".toList, .text []] := by decide +kernel
+
+open FormulaicVerif.Model.PyAlias in
+/-- C15.9  **Aliases are identifiers.** Whatever `sanitize_variable_name` returns is either the name
+itself — only with the template `{}`, for a name CPython accepts as an NFKC-stable identifier, that is
+not a keyword and does not already serve as the alias of another name — or an ASCII identifier
+(ASCII word characters, at least one, the first not a digit: it comes back unchanged from Python's
+parser) that is not refused by the loop condition: not the alias of another name, not a key of `env`
+unless it is this name's own alias, not a keyword, not a word of the code. -/
+theorem alias_is_identifier (cfg : Cfg) (x : Ctx) (name a : List Char) (copy : Bool)
+    (hp : Proofs.C15Alias.GoodPrefix cfg.pre) (h : sanitizeName cfg x name = some (a, copy)) :
+    (a = name ∧ cfg.pre = [] ∧ cfg.ident name = true ∧ isKeyword name = false ∧ getOr x.al name name = true) ∨
+    (Proofs.C15Alias.AsciiIdent a ∧ taken x name a = false) :=
+  Proofs.C15Alias.sanitizeName_spec cfg x name a copy hp h
+
+/-- both templates of the library satisfy the hypothesis -/
+example : Proofs.C15Alias.GoodPrefix Model.PyAlias.formulaicPrefix ∧ Proofs.C15Alias.GoodPrefix [] ∧
+    Model.PyAlias.formulaicPrefix ≠ [] := by
+  refine ⟨⟨by decide +kernel, by decide +kernel⟩, ⟨by simp, by simp⟩, by decide +kernel⟩
+
+open FormulaicVerif.Model.PyAlias in
+/-- C15.10  **The suffix loop stops**, whatever the alias table, the environment, the reserved words and
+the name are: the model never reports an exhausted bound, i.e. `sanitize_variable_names` is total. -/
+theorem alias_loop_terminates (cfg : Cfg) (isSpace : Char → Bool) (env : List (List Char)) (expr : List Char) :
+    ∃ r, sanitizeNames cfg isSpace env expr = some r :=
+  Proofs.C15Loop.sanitizeNames_total cfg isSpace env expr
+
+open FormulaicVerif.Model.PyAlias in
+/-- C15.11  **The alias table is faithful.** With the template of `sanitize_python_code` (any non-empty
+prefix of ASCII word characters not starting with a digit), for EVERY fragment: the sanitised text is
+the fragment in which each part that is a back-quoted name `b` is replaced by ` a ` where `a` is a
+non-empty run of ASCII word characters that the FINAL alias table maps back to `b` (later names never
+overwrite an earlier alias), all other parts verbatim; no key of the table is a word of the code. -/
+theorem alias_table_faithful (cfg : Cfg) (isSpace : Char → Bool) (env : List (List Char)) (expr s1 : List Char)
+    (al : Aliases) (added : List (List Char × List Char))
+    (hgp : Proofs.C15Alias.GoodPrefix cfg.pre) (hnp : cfg.pre ≠ [])
+    (h : sanitizeNames cfg isSpace env expr = some (s1, al, added)) :
+    ∃ r, Proofs.C15Alias.RenderedAll al (split expr) r ∧ s1 = strip isSpace r ∧
+      Proofs.C15Alias.KeysOK (reservedWords (split expr)) al := by
+  unfold sanitizeNames at h
+  simp only at h
+  cases hr : run cfg (reservedWords (split expr)) (split expr) { env := env } with
+  | none => simp [hr] at h
+  | some s =>
+    simp only [hr, Option.some.injEq, Prod.mk.injEq] at h
+    obtain ⟨h1, h2, _⟩ := h
+    have hk0 : Proofs.C15Alias.KeysOK (reservedWords (split expr)) ({ env := env } : State).al := by
+      intro k v hl; simp [lookup] at hl
+    obtain ⟨_, hk, r, hren, hout⟩ := Proofs.C15Alias.run_spec cfg _ hgp hnp (split expr) _ s hk0 hr
+    exact ⟨r, h2 ▸ hren, by rw [← h1, hout]; simp, h2 ▸ hk⟩
+
+open FormulaicVerif.Model.PyAlias in
+/-- C15.11a  **One alias per name.** With the template of `sanitize_python_code`, for EVERY fragment and
+every environment: in the alias table no name has two aliases — a second occurrence of a name walks
+through the same refused candidates and stops at the alias the name was given first — and (the table
+being a dictionary) no alias stands for two names. -/
+theorem alias_unique_per_name (cfg : Cfg) (isSpace : Char → Bool) (env : List (List Char)) (expr s1 : List Char)
+    (al : Aliases) (added : List (List Char × List Char)) (hnp : cfg.pre ≠ [])
+    (h : sanitizeNames cfg isSpace env expr = some (s1, al, added)) :
+    ∀ k k' v, lookup al k = some v → lookup al k' = some v → k = k' :=
+  Proofs.C15Unique.sanitizeNames_unique cfg isSpace env expr s1 al added hnp h
+
+open FormulaicVerif.Model.PyAlias in
+/-- `a b` and `a|b` would both become `_formulaic_a_b`: the second gets the suffix, both times it occurs -/
+example :
+    (sanitizeNames { pre := formulaicPrefix, ident := fun _ => false } (· == ' ') []
+        "f(`a b`, `a|b`, `a b`, `a|b`)".toList).map (fun r => (String.ofList r.1, r.2.1.map (fun p => (String.ofList p.1, String.ofList p.2))))
+    = some ("f( _formulaic_a_b ,  _formulaic_a_b_1 ,  _formulaic_a_b ,  _formulaic_a_b_1 )",
+            [("_formulaic_a_b", "a b"), ("_formulaic_a_b_1", "a|b")]) := by decide +kernel
+
+open FormulaicVerif.Model.PyAlias in
+/-- C15.12  **Restoration undoes the alias pass**, for EVERY fragment (quotes inside names, backslashes,
+unterminated quotes, words that look like aliases, names that contain alias text): applying the
+restoration of `sanitize_python_code` to the sanitised fragment gives the fragment back — every
+back-quoted name in its place with one space on either side, everything else untouched, the whole
+stripped of outer whitespace. (`SpaceOK`: no ASCII word character and not the back-quote is whitespace.) -/
+theorem restore_roundtrip (cfg : Cfg) (isSpace : Char → Bool) (env : List (List Char)) (expr s1 : List Char)
+    (al : Aliases) (added : List (List Char × List Char))
+    (hgp : Proofs.C15Alias.GoodPrefix cfg.pre) (hnp : cfg.pre ≠ []) (hp : Proofs.C15Restore.SpaceOK isSpace)
+    (h : sanitizeNames cfg isSpace env expr = some (s1, al, added)) :
+    restore al s1 = strip isSpace ((split expr).map Proofs.C15Restore.target).flatten :=
+  Proofs.C15Restore.restore_sanitize cfg isSpace env expr s1 al added hgp hnp hp h
+
+/-- ASCII whitespace satisfies `SpaceOK` -/
+example : Proofs.C15Restore.SpaceOK (fun c => c == ' ' || c == '\t' || c == '\n') :=
+  ⟨by intro c h; rcases (by simpa using h : (c = ' ' ∨ c = '\t') ∨ c = '\n') with (rfl | rfl) | rfl <;> decide, by decide⟩
+
+open FormulaicVerif.Model.PyAlias in
+/-- the round trip on a fragment with a quote inside a name, a look-alike identifier, a look-alike word
+in a string and a name that contains alias text (all four were defects of the code before its repair) -/
+example :
+    (sanitizeNames { pre := formulaicPrefix, ident := fun _ => false } (· == ' ') []
+        "f(`it's`, _formulaic_it_s, '_formulaic_a_b', `a b`, `_formulaic_a_b c`)".toList).map
+      (fun r => (String.ofList r.1, String.ofList (restore r.2.1 r.1)))
+    = some ("f( _formulaic_it_s_1 , _formulaic_it_s, '_formulaic_a_b',  _formulaic_a_b_1 ,  _formulaic__formulaic_a_b_c )",
+            "f( `it's` , _formulaic_it_s, '_formulaic_a_b',  `a b` ,  `_formulaic_a_b c` )") := by
+  decide +kernel
+
+open FormulaicVerif.Model.PyAlias in
+/-- C15.13  **The normal form of a fragment that is already formatted.** If `format_expr` (CPython) leaves
+the sanitised fragment as it is, `sanitize_python_code` returns the fragment itself, padded and
+stripped as above: for such fragments the whole normalisation is the identity on names and code. -/
+theorem normal_form_of_formatted (isSpace : Char → Bool) (fmt : List Char → Except Err (List Char)) (expr : List Char)
+    (hp : Proofs.C15Restore.SpaceOK isSpace) (hfmt : ∀ s, fmt s = .ok s) :
+    sanitizePythonCode isSpace fmt expr = .ok (strip isSpace ((split expr).map Proofs.C15Restore.target).flatten) := by
+  unfold sanitizePythonCode
+  obtain ⟨r, hr⟩ := Proofs.C15Loop.sanitizeNames_total { pre := formulaicPrefix, ident := fun _ => false } isSpace [] expr
+  obtain ⟨s1, al, added⟩ := r
+  simp only [hr, hfmt]
+  rw [Proofs.C15Restore.restore_sanitize _ isSpace [] expr s1 al added ⟨by decide +kernel, by decide +kernel⟩
+    (by decide +kernel) hp hr]
+
+/-- the hypothesis on `fmt` is satisfied by the formatter that changes nothing -/
+example : ∀ s : List Char, (Except.ok : List Char → Except Model.PyAlias.Err (List Char)) s = .ok s := fun _ => rfl
+
+/-! ## `Token` methods -/
+
+/-- C15.14  The kind → evaluation-method table of `Token.to_factor` (read from the live class): names are
+looked up, Python tokens evaluated, values literal; operator and context tokens raise `KeyError`, a
+token without a kind `RuntimeError`. -/
+theorem kind_to_factor :
+    Model.TokM.evalOfKind (some .name) = .ok .lookup ∧ Model.TokM.evalOfKind (some .python) = .ok .python ∧
+    Model.TokM.evalOfKind (some .value) = .ok .literal ∧ Model.TokM.evalOfKind (some .operator) = .error .keyError ∧
+    Model.TokM.evalOfKind (some .context) = .error .keyError ∧ Model.TokM.evalOfKind none = .error .runtimeError :=
+  Proofs.C15Token.evalOfKind_table
+
+/-- C15.14a  The factor the parser model makes of a leaf token is the factor `Token.to_factor` makes. -/
+theorem leaf_factor_agrees (t : Tok) (f : Factor) (h : Model.TokM.toFactor t = .ok f) : termOfTok t = [f] :=
+  Proofs.C15Token.termOfTok_toFactor t f h
+
+/-- C15.15  **The source context marks the span.** For EVERY string that tokenises and every token of
+it, with span `a … b`: `get_source_context()` is the source with the two markers inserted before
+position `a` and after position `b` (with `colorize=True`, as in error messages, the colour escape
+sequences just inside the markers) — removing them gives the source back — and what stands between
+them is exactly the slice that `token_text_exact` relates to the token's text. -/
+theorem source_context_marks_span (cs : List CharInfo) (ts : List Tok) (h : tokenize cs = .ok ts) (colorize : Bool) :
+    ∀ t ∈ ts, ∃ a b, t.start = some a ∧ t.stop = some b ∧ a ≤ b ∧ b < cs.length ∧
+      Model.TokM.sourceContext (some (cs.map (·.c))) t colorize =
+        some ((cs.map (·.c)).take a ++ Gen.contextLeft.toList ++ (if colorize then Gen.contextColorOn.toList else [])
+          ++ Model.TokM.slice (cs.map (·.c)) a b ++ (if colorize then Gen.contextColorOff.toList else [])
+          ++ Gen.contextRight.toList ++ (cs.map (·.c)).drop (b + 1)) ∧
+      (cs.map (·.c)).take a ++ Model.TokM.slice (cs.map (·.c)) a b ++ (cs.map (·.c)).drop (b + 1) = cs.map (·.c) := by
+  intro t ht
+  obtain ⟨a, b, ha, hb, hab, hbl, _⟩ := Proofs.C15Exact.token_text_exact cs ts h t ht
+  refine ⟨a, b, ha, hb, hab, hbl, ?_, Proofs.C15Token.take_slice_drop _ a b hab⟩
+  have hne : cs.map (·.c) ≠ [] := by
+    intro hnil
+    have : cs = [] := by simpa using hnil
+    subst this
+    simp at hbl
+  exact Proofs.C15Token.sourceContext_eq (cs.map (·.c)) t a b colorize hne ha hb
+
+/-- C15.16  **`Token.split` cuts the text and nothing else**: for every token, every literal pattern and
+both flags, the texts of the pieces put side by side are the token's text, and every piece keeps the
+kind and the source span of the token (so after the parser has split an operator run such as `~-`, each
+piece still points at the run it came from). -/
+theorem split_keeps_text_and_span (t : Tok) (pat : List Char) (after before : Bool) :
+    ((Model.TokM.split t pat after before).map (·.text)).flatten = t.text ∧
+      ∀ u ∈ Model.TokM.split t pat after before, u.kind = t.kind ∧ u.start = t.start ∧ u.stop = t.stop :=
+  Proofs.C15Token.split_spec t pat after before
+
+/-- C15.16a  The split the parser model applies to operator runs at `~` and `|` (`Model.splitAfter`,
+inside `insertOneAfter`) IS `Token.split(pattern, after=True)` as modelled here — and that model is
+compared with the real method on every run. -/
+theorem parser_split_is_token_split (t : Tok) (c : Char) :
+    (Model.TokM.split t [c] true false).map (·.text) = splitAfter c t.text :=
+  Proofs.C15Token.split_after_eq_splitAfter t c
+
+/-- `~-~` split after every `~`: pieces `~`, `-~`; empty pieces appear with `before` when a match starts the text -/
+example :
+    (Model.TokM.split { text := "~-~".toList, kind := some .operator, start := some 2, stop := some 4 } ['~'] true false).map (·.text)
+      = ["~".toList, "-~".toList] ∧
+    (Model.TokM.split { text := "~-~".toList, kind := some .operator, start := some 2, stop := some 4 } ['~'] false true).map (·.text)
+      = ["".toList, "~-".toList, "~".toList] := by decide +kernel
 
 end FormulaicVerif.Props.C15
